@@ -7,12 +7,15 @@ open MySensors.StopOrder
 def showEv : Ev → String
   | .proc c => "proc" ++ toString c
   | .disconnect => "disconnect"
-  | .save => "save"
+  | .saveStart => "saveStart"
+  | .saveEnd => "saveEnd"
 
-def parseEv (w : String) : Option Ev :=
-  if w == "disconnect" then some .disconnect
-  else if w == "save" then some .save
-  else if w.startsWith "proc" then (w.drop 4).toNat?.map Ev.proc
+def parseEv (w : String) : Option (List Ev) :=
+  if w == "disconnect" then some [.disconnect]
+  else if w == "saveStart" then some [.saveStart]
+  else if w == "saveEnd" then some [.saveEnd]
+  else if w == "save" then some [.saveStart, .saveEnd]
+  else if w.startsWith "proc" then (w.drop 4).toNat?.map fun c => [Ev.proc c]
   else none
 
 def showNats (l : List Nat) : String :=
@@ -23,9 +26,9 @@ def stopCmd (cmd : String) (args : List String) : Option String :=
   match cmd with
   | "STOPSCRIPT" => some (",".intercalate (script.map showEv))
   | "STOPRUN" =>
-    (args.mapM parseEv).map fun evs =>
-      let s := run {} evs
-      s!"handed={showNats s.handed.reverse} file={showNats s.file.reverse} connected={if s.connected then 1 else 0}"
+    (args.mapM parseEv).map fun evss =>
+      let s := run {} evss.flatten
+      s!"handed={showNats s.handed.reverse} file={showNats s.file.reverse} connected={if s.connected then 1 else 0} dirty={if s.dirty then 1 else 0}"
   | _ => none
 
 end MySensors.Driver
